@@ -8,11 +8,16 @@
      c01_noreply_never_reads  a call that asked for noreply performs no recv at all
      c01_server_silent_iff    the specification server sends nothing back exactly for noreply commands
    so a later call can never read what a FAILED call left behind, and noreply calls neither wait nor read.
-   PARTIAL: that a call which RETURNS has read its reply to the last byte (nothing left unread, nothing over-read)
-   is c03_sequences' hypothesis quiet_run; for the faithful server it is checked here on the implementation with
-   per-byte ownership tags (every operation x fault plan x segmentation, followed by further calls), not proved. *)
+   c01_exact_*              on a connected client with nothing pending and a fault-free transport, an exchange
+                              with a peer that answers one CRLF-terminated line per command reads exactly those lines:
+                              nothing is left unread and nothing is over-read (store path, misc path, noreply variants);
+                              with the specification server as the peer this gives St .. [] after every one-command
+                              operation (Properties/C05.v, the c05_e2e theorems)
+   PARTIAL: exact consumption is proved for the line-per-command exchanges; for retrievals (VALUE blocks) and for
+   calls that reconnect first it is c03_sequences' hypothesis quiet_run and is checked on the implementation with
+   per-byte ownership tags (every operation x fault plan x segmentation, followed by further calls). *)
 From Coq Require Import ZArith List Bool.
-From PM Require Import Lib.Py Model.World Model.Readers Model.Client Proofs.Hoare Proofs.C10Proof Proofs.C01Proof
+From PM Require Import Lib.Py Model.World Model.Readers Model.Client Proofs.Hoare Proofs.C10Proof Proofs.C01Proof Proofs.Quiet
                        Spec.Proto Spec.Server Proofs.C05Proof Gen.Handlers.
 Import ListNotations.
 Open Scope Z_scope.
@@ -46,3 +51,23 @@ Proof. exact C01Proof.noreply_never_reads. Qed.
 Print Assumptions c01_noreply_never_reads.
 Theorem c01_server_silent_iff : forall (s : sstate) c, (snd (step s c) = []) <-> is_noreply c = true.
 Proof. exact C05Proof.reply_iff_not_noreply. Qed.
+
+(* exact consumption on the two line-per-command exchange paths, for ANY peer that answers that way *)
+Theorem c01_exact_store : forall P peer c sid p p' name values cmds lines,
+  peer p cmds = (p', lines_bytes lines) -> length lines = length values -> Forall line_ok lines ->
+  (forall e, exn_isa e Exception_ = true -> exn_isa e (h_store c) = true) ->
+  hoare (St P sid p []) (store_io P peer c name values false cmds)
+        (fun res w => read_store_lines name values lines [] = Ok res /\ St P sid p' [] w)
+        (fun e w => read_store_lines name values lines [] = Raise e /\ w_sock w = None).
+Proof. exact Quiet.store_io_quiet. Qed.
+Theorem c01_exact_misc : forall P peer c sid p p' cmds lines,
+  peer p (concat cmds) = (p', lines_bytes lines) -> length lines = length cmds -> Forall line_ok lines ->
+  (forall e, exn_isa e Exception_ = true -> exn_isa e (h_misc c) = true) ->
+  hoare (St P sid p []) (misc_cmd P peer c cmds false [])
+        (fun res w => read_misc_lines lines [] = Ok res /\ St P sid p' [] w)
+        (fun e w => read_misc_lines lines [] = Raise e /\ w_sock w = None).
+Proof. exact Quiet.misc_cmd_quiet. Qed.
+Theorem c01_exact_noreply : forall P peer c sid p p' cmds, peer p (concat cmds) = (p', []) ->
+  hoare (St P sid p []) (misc_cmd P peer c cmds true []) (fun _ => St P sid p' []) (fun _ _ => False).
+Proof. exact Quiet.misc_cmd_noreply_quiet. Qed.
+Print Assumptions c01_exact_misc.
